@@ -43,6 +43,10 @@ type Instance interface {
 // (e.g. to enumerate faults on fresh copies of that state).
 type StateAware interface{ SetState(*tla.Value) }
 
+// HeaderAware is implemented by adapters that read constants of the model from the header line (the record with the
+// call alphabet) TLC prints first.
+type HeaderAware interface{ SetHeader(*tla.Value) }
+
 // Adapter builds instances in a given initial model state.
 type Adapter interface {
 	Name() string
@@ -288,6 +292,13 @@ func Run(r io.Reader, module string, ads []Adapter, opt Options) ([]*Summary, er
 					if calls == nil {
 						calls = c.E
 						sum.CallsInAlphabet = len(calls)
+						// further fields of the header line are constants of the model an adapter may need
+						hv := v
+						for _, ad := range ads {
+							if ha, ok := ad.(HeaderAware); ok {
+								ha.SetHeader(&hv)
+							}
+						}
 					}
 				} else if s := v.Get("s"); s != nil {
 					if opt.MaxStates > 0 && sum.States >= opt.MaxStates {
